@@ -157,6 +157,16 @@ func makeTxs(h *History, r *rand.Rand) ([]*wire.MsgTx, map[chainhash.Hash]int) {
 		for _, p := range ps {
 			tx.AddTxIn(&wire.TxIn{PreviousOutPoint: wire.OutPoint{Hash: txs[p].TxHash(), Index: uint32(i)}})
 		}
+		// most transactions carry witness data (txid != wtxid), a few do not
+		if r.Intn(4) > 0 {
+			for _, in := range tx.TxIn {
+				sig := make([]byte, 71)
+				r.Read(sig)
+				key := make([]byte, 33)
+				r.Read(key)
+				in.Witness = wire.TxWitness{sig, key}
+			}
+		}
 		for k := 0; k < 8; k++ {
 			pk := make([]byte, 22)
 			r.Read(pk)
